@@ -285,6 +285,9 @@ def run(seed=0, rounds=3):
             return out
 
         admits("any dim 1", lambda I, a: M["any"](I, a, 1), lambda a: a.any(1), [(b, "bool")], any_insts)
+        for bt in (b, torch.ones_like(b)):
+            admits("all over every element", lambda I, a: stn.ST((), (lambda r_: (lambda: r_))(M["all"](I, a)), "bool"), lambda a: a.all(), [(bt, "bool")],
+                   lambda I: [al["elim"](z3.IntVal(i), z3.IntVal(j)) for al in I.ex.ghost.get("alls", []) for i in range(3) for j in range(3)])
         admits("any dim 1 (witness form)", lambda I, a: M["any"](I, a, 1), lambda a: a.any(1), [(b, "bool")],
                lambda I: [x_ for an in I.ex.ghost.get("anys", []) for o in range(3) for x_ in [an["witness"]([z3.IntVal(o)])] + [an["intro"]([z3.IntVal(o)], z3.IntVal(j)) for j in range(3)]])
         # row-major compaction (masked_select / masked_scatter) and max over a vector: the contracts, with every instance over the
